@@ -16,6 +16,7 @@ pub mod c18;
 pub mod c19;
 pub mod c20;
 pub mod huge;
+pub mod large;
 
 pub fn replay(id: &str, file: &str) -> i32 {
     let mut run = Run::new(id, Tier::Quick, "exploration");
